@@ -759,7 +759,7 @@ func (r *yieldRewriter) rewriteBreakContinues(body *ast.BlockStmt) {
 		switch n := n.(type) {
 		case *ast.ForStmt, *ast.RangeStmt:
 			enterLoop(true)
-		case *ast.SwitchStmt, *ast.TypeSwitchStmt:
+		case *ast.SwitchStmt, *ast.TypeSwitchStmt, *ast.SelectStmt:
 			enterSwitch(true)
 		case *ast.FuncLit:
 			enterLoop(false)
@@ -772,7 +772,7 @@ func (r *yieldRewriter) rewriteBreakContinues(body *ast.BlockStmt) {
 		switch n := n.(type) {
 		case *ast.ForStmt, *ast.RangeStmt:
 			exitLoop()
-		case *ast.SwitchStmt, *ast.TypeSwitchStmt:
+		case *ast.SwitchStmt, *ast.TypeSwitchStmt, *ast.SelectStmt:
 			exitSwitch()
 		case *ast.FuncLit:
 			exitLoop()
